@@ -16,6 +16,8 @@ Inductive vobs := VOk (vs : list vdump) | VSyntax | VExt.
 Inductive case :=
   (* FromString on [text] with the files reachable through Include *)
   | CText (files : list (bytes * bytes)) (text : bytes) (o : obs)
+  (* several FromString / FromFile calls on one Parser *)
+  | CSession (files : list (bytes * bytes)) (steps : list pstep) (o : obs)
   (* a structured description, the variation used, the logical line the harness rendered,
      and what the line compiled to *)
   | CDesc (d : rule_desc) (mask : list bool) (v : rvar) (line : bytes) (o : obs)
@@ -60,7 +62,7 @@ Definition dump_eqb (a b : dump) : bool :=
   && (du_id a =? du_id b) && (du_phase a =? du_phase b)
   && opt_eqb bytes_eqb (du_msg a) (du_msg b) && opt_eqb bytes_eqb (du_logdata a) (du_logdata b)
   && list_eqb bytes_eqb (du_tags a) (du_tags b) && bytes_eqb (du_rev a) (du_rev b)
-  && bytes_eqb (du_ver a) (du_ver b).
+  && bytes_eqb (du_ver a) (du_ver b) && opt_eqb bytes_eqb (du_data a) (du_data b).
 Definition action_eqb (a b : action) : bool :=
   bytes_eqb (a_name a) (a_name b) && bytes_eqb (a_value a) (a_value b) && (a_type a =? a_type b).
 
@@ -91,13 +93,14 @@ Definition obs_matches (m : option (list dump)) (o : obs) : bool :=
 Definition ok (c : case) : bool :=
   match c with
   | CText files text o => obs_matches (compile_config files text) o
+  | CSession files steps o => obs_matches (compile_session files steps) o
   | CDesc d mask v line o =>
     wf_desc d && wf_rvar v d
     && bytes_eqb (render_line mask v d) line
     && opt_eqb (list_eqb rule_eqb) (parse_config [] line) (Some [d])
-    && obs_matches (compile_rules [d] []) o
+    && obs_matches (compile_rules [] [([], d)] []) o
     && obs_matches (compile_config [] line) o
-  | CIntent d text o => obs_matches (compile_rules [d] []) o && obs_matches (compile_config [] text) o
+  | CIntent d text o => obs_matches (compile_rules [] [([], d)] []) o && obs_matches (compile_config [] text) o
   | CActions s r => opt_eqb (list_eqb action_eqb) (parse_actions s) r
   | CSplit s r =>
     opt_eqb (fun a b => let '(v1, o1, a1) := a in let '(v2, o2, a2) := b in
